@@ -2,6 +2,8 @@ package main
 
 // One blank import per engine package; each registers its checks in init().
 import (
+	_ "verif/harness/codeclab"
+	_ "verif/harness/englab"
 	_ "verif/harness/inproc"
 	_ "verif/harness/keylab"
 	_ "verif/harness/model"
